@@ -7,9 +7,10 @@ SPEC = {
         {"name": "TestKnownWitness", "quick": 1, "thorough": 1, "shards": 1, "timeout": 120},
         {"name": "TestNoEntries", "quick": 1200, "thorough": 40000, "shards_quick": 4, "shards_thorough": 8, "timeout": 1200},
         {"name": "TestKnownWitnessNoEntries", "quick": 1, "thorough": 1, "shards": 1, "timeout": 120},
+        {"name": "TestLongLines", "quick": 1200, "thorough": 40000, "shards_quick": 4, "shards_thorough": 8, "timeout": 1800},
     ],
     # thorough tier: coverage-guided campaigns over the same generators + oracles (rapid.MakeFuzz)
-    "fuzz": [{"name": "FuzzModel", "seconds": 60}, {"name": "FuzzNoEntries", "seconds": 20}],
+    "fuzz": [{"name": "FuzzModel", "seconds": 60}, {"name": "FuzzNoEntries", "seconds": 20}, {"name": "FuzzLongLines", "seconds": 20}],
     "rule": ("rapid-generated ammo files (internal/ammogen, all layout knobs; tags drawn from a small pool so they repeat; untagged "
              "entries) in the four HTTP formats x limit 0..12 x passes 0..3 x chosencases (none / the key given with an explicitly empty list, "
              "`chosencases: []`, decoded through the config path like every other setting / a subset of the pool incl. the empty "
@@ -21,7 +22,13 @@ SPEC = {
              "LF or CRLF, the last one possibly unterminated; uri/uripost files and inline `uris` holding only [Header: value] directives; an "
              "http/json file holding an empty array) x limit {0,1,3,5} x passes 0..3 x chosencases (absent / explicitly empty / 1-2 tags), "
              "built and run with preload off and on; non-trivial = both providers were built and run. Such a file is not the listed "
-             "finding's shape (entries exist, none matches) and is never excused by it."),
+             "finding's shape (entries exist, none matches) and is never excused by it. "
+             "TestLongLines: generated files (1-5 entries; uri in four cases of seven, a third of those through inline `uris`; uripost, raw, http/json) in which 1-2 "
+             "lines are LONG - an entry with a query string, or a uri/uripost '[Name: value]' line with a value, that brings the line to 4096..65003 bytes "
+             "(lengths at and around 4096 / 8192 / 16384 / 32768 and up to just below bufio's 64 KiB default) - x `maxammosize` unset (half) / below the longest line "
+             "(1, 100, 1024, 4096, half, one less) / at it / above it x bounds that mostly take the delivery beyond one pass (passes 2-3, limit above the number of "
+             "entries, both, none; single pass and small limits as controls) x chosencases (none in three of four, else tags of the file's entries) x 1-3 ammo held at once; "
+             "preload off and on. Non-trivial = a selected entry is long (or carries a long header) and more is delivered than one pass holds."),
     "floors": {"TestPreloadEquivalence/proper_subset": 0.15, "TestPreloadEquivalence/filter_x_limit": 0.08,
                "TestPreloadEquivalence/filter_x_passes": 0.08, "TestPreloadEquivalence/limit_hit_with_filter": 0.03,
                "TestPreloadEquivalence/date_middleware": 0.13, "TestPreloadEquivalence/date_middleware_entry_redelivered": 0.094,
@@ -32,7 +39,15 @@ SPEC = {
                "TestNoEntries/none_shape_empty": 0.12, "TestNoEntries/none_shape_blank_lines": 0.12,
                "TestNoEntries/none_shape_directives_only": 0.12, "TestNoEntries/none_shape_json_empty_array": 0.06,
                "TestNoEntries/none_format_raw": 0.12, "TestNoEntries/none_format_uri": 0.12, "TestNoEntries/none_format_uripost": 0.12,
-               "TestNoEntries/none_with_explicit_empty_chosencases": 0.08},
+               "TestNoEntries/none_with_explicit_empty_chosencases": 0.08,
+               "TestLongLines/long_line_4k_or_more": 0.8, "TestLongLines/long_line_just_above_4k": 0.2, "TestLongLines/long_line_32k_or_more": 0.1,
+               "TestLongLines/long_format_uri": 0.42, "TestLongLines/long_inline_uris": 0.15, "TestLongLines/long_directive_value": 0.07,
+               "TestLongLines/long_line_delivered_again": 0.3, "TestLongLines/long_line_delivered_again_uri": 0.17,
+               "TestLongLines/long_line_delivered_again_inline_uris": 0.07, "TestLongLines/long_line_delivered_again_maxammosize_unset": 0.15,
+               "TestLongLines/long_line_delivered_again_maxammosize_below": 0.03, "TestLongLines/long_line_delivered_again_maxammosize_above": 0.025,
+               "TestLongLines/long_line_delivered_again_by_passes": 0.18, "TestLongLines/long_line_delivered_again_by_limit": 0.06,
+               "TestLongLines/long_line_delivered_again_unbounded": 0.04, "TestLongLines/long_line_delivered_again_with_filter": 0.05,
+               "TestLongLines/long_single_pass_control": 0.1},
     "manifest": {
         "technique": "differential property testing (rapid): the same generated file and settings with preload off vs on, plus an absolute model of chosencases/limit/passes",
         "text": ("Both providers must deliver exactly the entries whose tag is listed, in file order, cyclically, identical item by item "
@@ -41,11 +56,15 @@ SPEC = {
                  "both modes, carries exactly one non-empty value of the date header and no other header the entry does not define. "
                  "An explicitly empty chosencases list names no tag to restrict the test to and is judged as no filter (limit and passes "
                  "bound the run as without the key). For a file without entries: the preload flag must not change whether the provider can "
-                 "be constructed, neither mode delivers anything, and both runs end the same way (Run error or not, end of ammo seen, no hang)."),
+                 "be constructed, neither mode delivers anything, and both runs end the same way (Run error or not, end of ammo seen, no hang). "
+                 "For files with long lines: while `maxammosize` is unset (default 64 KiB) or at least two bytes above the longest line, every entry is within the limits and the "
+                 "full model above applies (every pass delivers the long entries again, Run nil); with `maxammosize` at or below the longest line a reader may "
+                 "enforce it, so only sameness is asserted: the same number of ammo, identical item by item, and the same ending (Run error or not, end of ammo seen, no hang) with preload off and on."),
         "note": ("One listed known finding (filter matching nothing ends differently with preload) is excluded by construction and "
                  "re-confirmed by a fixed witness each run; any other disagreement is a violation. For files without entries only sameness of "
                  "the ending is asserted, not which ending it is (the docs do not say that an empty file must fail)."),
     },
-    "assumptions": ["unbounded cells compare the first 3E+2 items",
+    "assumptions": ["a line shorter than 64 KiB - 2 with maxammosize unset or above it is within every reader's documented limits (maxammosize: 'Maximum number of byte in jsonline ammo. Default is bufio.MaxScanTokenSize')",
+                    "unbounded cells compare the first 3E+2 items",
                     "`chosencases: []` means no filter (confutil.IsChosenCase: 'If no chosenCases provided - returns true')"],
 }
